@@ -372,7 +372,7 @@ class FnTerms:
 
 
 def place_key(pl):
-    return (pl["local"], tuple((e["k"], e.get("name", e.get("i"))) for e in pl["proj"]))
+    return "_%d%s" % (pl["local"], "".join(".%s" % (e.get("name", e.get("i", e["k"]))) for e in pl["proj"]))
 
 
 # ---------------------------------------------------------------------- smart constructors
